@@ -127,6 +127,16 @@ def _const_part(g, res, big=False):
                 if k not in seen:
                     seen.add(k)
                     F.append({"key": k, "msg": "%s advection of the constant 1 on %s with flow directions %s per axis differs from divergenceTerm(u)" % (nm, U.spec_id(g.spec), list(sg)), "detail": {}})
+        # with a separate upwind-direction field (another direction pattern, other magnitudes): a constant is advected as
+        # c*div(u) whatever donor cells are chosen
+        upd = U.face_from_arrays(g.mesh, [-s_ * (a + 0.5) if s_ else (a + 0.5) for s_, a in zip(sg, absu)])
+        got = (pf.convectionUpwindTerm(u, upd) @ ones)[rows]
+        res["evals"] += 1
+        if cmp_tol(got, div, rel=1e-11).any():
+            k = "C06:upwind_of_constant:%s:explicit_direction" % g.cls
+            if k not in seen:
+                seen.add(k)
+                F.append({"key": k, "msg": "upwind advection of the constant 1 on %s with flow directions %s and a separate upwind-direction field differs from divergenceTerm(u)" % (U.spec_id(g.spec), list(sg)), "detail": {}})
         rhs = np.asarray(pf.convectionTVDupwindRHSTerm(u, g.cell(np.ones(g.fshape)), pf.fluxLimiter("SUPERBEE")), dtype=float)
         if not np.all(rhs == 0.0):
             k = "C06:tvd_of_constant:%s:axis_directions" % g.cls
